@@ -27,12 +27,16 @@ RULE = (
 )
 ASSUMPTIONS = ["integer-valued data and h = 1 so that finite differences of multilinear terms are exact in floating point"]
 V = list("abcde")
+PYF = ["log(p)", "I(p + 1)", "center(p)"]
 
 
 def gen_case(rng: random.Random, tier: str) -> dict:
     terms, seen = [], set()
     for _ in range(rng.randint(1, 6)):
         fs = rng.sample(V, rng.randint(1, 4))
+        if rng.random() < 0.25:  # factors computed by Python code are differentiation variables like any other (by their text)
+            fs[rng.randrange(len(fs))] = rng.choice(PYF)
+            fs = list(dict.fromkeys(fs))
         if frozenset(fs) in seen:
             continue
         seen.add(frozenset(fs))
@@ -42,8 +46,8 @@ def gen_case(rng: random.Random, tier: str) -> dict:
     n = 6
     return {
         "terms": terms, "icpt": rng.random() < 0.6, "ordering": rng.choice(["degree", "none", "sort"]),
-        "wrt": [rng.choice(V + ["q"]) for _ in range(rng.randint(1, 3))],
-        "data": {v: [float(rng.randint(-4, 4)) for _ in range(n)] for v in V},
+        "wrt": [rng.choice(V + ["q"] + (PYF if any(f in PYF for t in terms for f in t) else [])) for _ in range(rng.randint(1, 3))],
+        "data": {**{v: [float(rng.randint(-4, 4)) for _ in range(n)] for v in V}, "p": [float(rng.randint(1, 5)) for _ in range(n)]},
         "entry": rng.choice(["formula", "formula", "spec", "fitted_spec", "structured", "structured_specs"]),
     }
 
@@ -120,6 +124,9 @@ def judge(case) -> Outcome:
     if list(map(repr, form)) != list(map(repr, Formula(f, _ordering=case["ordering"]))):
         out.fail("c20.mutated_formula", "differentiate changed the original formula")
     out.see("symbolic_ok")
+    if any(f in PYF for t in orig_terms for f in t):
+        out.see("symbolic_only_python_factors")  # (finite differences are taken in data columns; a computed factor is not one)
+        return out
     # numeric: successive finite differences of each original term column
     df = pd.DataFrame(case["data"])
     n = len(df)
